@@ -170,6 +170,17 @@ Example C11_monitor_rejects_second_indication_and_bad_confirmation :
      = Some (5%nat, t11_two_outstanding).
 Proof. repeat split; vm_compute; reflexivity. Qed.
 
+(* the false alarm of the thorough tier (docs/C11.md): with the known finding of C10 (a service without
+   characteristics shifts the attribute) the indication IS transmitted, but carries the handle of the
+   characteristic declaration; the request is not lost in the sense of C11 and the monitor accepts the trace
+   (the corrected observer does not insist on must-requests it can no longer attribute); C10 judges the PDU *)
+Example C11_unattributable_pdu_is_not_a_loss :
+  let tr := srv_run cfg_emptysvc_mtu23 (srv_init cfg_emptysvc_mtu23)
+              [OpIn 0 [18; 5; 0; 2; 0] 23; OpNotify false KInd 0; OpOut 0 23; OpOut 0 23] in
+  map snd tr = [OBytes [19]; OBits [true; true; true]; OBytes [29; 3; 0; 58; 4; 0; 0; 42]; OBytes []]
+  /\ monitor11 cfg_emptysvc_mtu23 tr = None.
+Proof. split; vm_compute; reflexivity. Qed.
+
 From BT Require gen.GenAttSrv.
 Example C11_constants_are_the_codes :
   GenAttSrv.opcode_confirmation = 30 /\ GenAttSrv.opcode_indication = 29 /\ GenAttSrv.opcode_notification = 27.
